@@ -390,12 +390,12 @@ func c20(r *core.Run) {
 		r.Failf("resources", "library-goroutines", "%d goroutines started by the library are alive after %d reconfigurations: their number must not grow with the number of reconfigurations (a watcher plus at most two helpers is expected)", liveLib, len(steps))
 	}
 	kinds := e.app.FDKinds()
+	// The property bounds resources independently of the history length; it does
+	// not forbid one idle watcher while auto-refresh is off (whether refreshing is
+	// really off is checked by the probe change below).
 	maxInst := 1
-	if !curAuto {
-		maxInst = 0
-	}
 	if liveWatchers > maxInst {
-		r.Failf("resources", "watcher-goroutines", "%d watcher goroutines are alive after %d reconfigurations (auto-refresh %v): at most %d may remain", liveWatchers, len(steps), curAuto, maxInst)
+		r.Failf("resources", "watcher-goroutines", "%d watcher goroutines are alive after %d reconfigurations (auto-refresh %v): their number must not grow with the reconfigurations (at most %d)", liveWatchers, len(steps), curAuto, maxInst)
 	}
 	if kinds["inotify"] > maxInst || kinds["aux"] > 3*maxInst {
 		r.Failf("resources", "descriptors", "after %d reconfigurations the process holds %d inotify descriptors and %d poller descriptors (auto-refresh %v): at most %d watcher may remain", len(steps), kinds["inotify"], kinds["aux"], curAuto, maxInst)
@@ -409,14 +409,20 @@ func c20(r *core.Run) {
 	}
 	sort.Strings(watched)
 	wantWatched := map[string]bool{}
-	if curAuto && kinds["inotify"] > 0 {
-		for i, d := range finalDirs {
-			if truth.DirState[i] == "ok" {
-				wantWatched[d] = true
-			}
+	for i, d := range finalDirs {
+		if truth.DirState[i] == "ok" {
+			wantWatched[d] = true
 		}
 	}
-	if !eqStrings(watched, sortedKeys(wantWatched)) && !(curAuto && kinds["inotify"] == 0) {
+	okWatches := eqStrings(watched, sortedKeys(wantWatched)) || (curAuto && kinds["inotify"] == 0)
+	if !curAuto {
+		// auto-refresh off: no watch is needed; left-over watches are tolerated only on final directories
+		okWatches = true
+		for _, wd := range watched {
+			okWatches = okWatches && wantWatched[wd]
+		}
+	}
+	if !okWatches {
 		r.Failf("watches", "wrong-directories", "the cache watches %v; with the final options (dirs %v, auto-refresh %v) it must watch exactly %v", watched, curDirs, curAuto, sortedKeys(wantWatched))
 	}
 	// (b) probe: a change in every final directory that exists
